@@ -176,3 +176,12 @@ Theorem gramcd_certificate_with_modelled_anderson :
   exists opt, score w g (zrange 0 (zlen w)) = Ok opt /\ emax_list opt = Ok (g_stop out).
 Proof. exact gram_certificate_with_anderson. Qed.
 Print Assumptions gramcd_certificate_with_modelled_anderson.
+
+(* ---------------------------------------------------------------- MultiTaskBCD ----------------------------- *)
+Require Import SK.Skel.MultiTaskBCD SK.Skel.MultiTaskBCDProofs.
+Theorem multitaskbcd_stop_is_criterion_of_returned_point :
+  forall {F} `{Num F} (cfg : @mt_config F) (K : @mt_kernels F) W_init XW_init out,
+  mt_solve cfg K W_init XW_init = Ok out -> ele (g_stop out) (mt_tol cfg) = true ->
+  exists lip opt, mtk_lipschitz K = Ok lip /\ mt_crit cfg K lip (g_s out) = Ok (opt, g_stop out).
+Proof. intros F H. exact (@mt_solve_stop_is_criterion F H). Qed.
+Print Assumptions multitaskbcd_stop_is_criterion_of_returned_point.
